@@ -178,7 +178,20 @@ fn exec(op: &Op) -> String {
         "pattern.match" => {
             let (Some(p), Some(n)) = (a(0), a(1)) else { return "BAD-UTF8".into() };
             match Pattern::new(p) {
-                Ok(pat) => b(pat.matches(n)).into(),
+                Ok(pat) => {
+                    let r = pat.matches(n);
+                    // a copy made with clone() or clone_from() (over a pattern of another kind) is
+                    // the same pattern
+                    for other in ["zz-[0-9]*", "zz>=1", "{zz,yy}-1", "zz"] {
+                        if let Ok(mut d) = Pattern::new(other) {
+                            d.clone_from(&pat);
+                            if d.matches(n) != r || d != pat || pat.clone().matches(n) != r {
+                                return "CLONE-DIFFERS".into();
+                            }
+                        }
+                    }
+                    b(r).into()
+                }
                 Err(_) => "err".into(),
             }
         }
